@@ -174,9 +174,40 @@ def _index_rot(rows, h):
         return tuple(tuple(r) for r in new)
 
 
+def pattern_grid(shape):
+    """grids too large for pairwise distinct labels: a position-dependent, non-periodic-in-small-steps pattern (the cell
+    by cell comparison with the index formula and the object-identity check do not need distinct labels)"""
+    from ..universe import LABELS_T
+    h, w = shape
+    return tuple(tuple(LABELS_T[(y * 7 + x * 3 + y // 5 + (x * y) % 11) % len(LABELS_T)] for x in range(w)) for y in range(h))
+
+
+def law_imul(args):
+    """augmented assignment composes like the plain product: `t *= s` leaves t equal to t * s, and s untouched"""
+    a, b = args
+    t, s_ = T(a), T(b)
+    want = T(a) * T(b)
+    t *= s_
+    if t != want:
+        return f'after `t *= s` t is {(t.position.yx, ORI_NAME[t.orientation])}, t * s is {(want.position.yx, ORI_NAME[want.orientation])}'
+    if s_ != T(b):
+        return '`t *= s` changed s'
+    o = ORI[a[1]]
+    o *= ORI[b[1]]
+    if o != ORI[a[1]] * ORI[b[1]]:
+        return '`o *= o2` on orientations differs from the product'
+    p = P(a[0])
+    t2 = T(b)
+    q = t2 * p
+    t2 *= p
+    if t2 != q:
+        return '`t *= position` differs from t * position'
+    return None
+
+
 def law_grid(args):
     shape, a, b = args
-    rows = labelled_grid(tuple(shape))
+    rows = labelled_grid(tuple(shape)) if shape[0] * shape[1] <= 16 else pattern_grid(tuple(shape))
     g = mkgrid(rows)
     oa, ob = ORI[a], ORI[b]
     ga = g * oa
@@ -279,6 +310,7 @@ def law_alias(args):
 
 
 LAWS = {
+    'imul': law_imul,
     'alias': law_alias,
     'neg_history': law_neg_history,
     'orient': law_orient,
@@ -356,7 +388,7 @@ def run(rep, tier, seed):
         'extreme_coordinates': [str(b) for b in big],
         'transforms': len(transforms),
         'area_bounds': '[-2,2]',
-        'grid_shapes': 'all HxW with H,W in 1..4',
+        'grid_shapes': 'all HxW with H,W in 1..4; (n+d) x m and m x (n+d) for n in 16..512 powers of two, d in -1..1, m in 1..3',
     }
     jobs = []
     jobs.append(('orient', [list(t) for t in itertools.product(HEADINGS, repeat=3)]))
@@ -367,6 +399,7 @@ def run(rep, tier, seed):
     jobs.append(('transform1', [[t] for t in tx_ext]))
     jobs.append(('neg_history', [[a, b] for a in transforms for b in transforms[::7]]))
     jobs.append(('alias', [[a, b] for a in transforms for b in transforms[::7]]))
+    jobs.append(('imul', [[a, b] for a in transforms for b in transforms[::3]]))
     for t1 in transforms:
         jobs.append(('transform3', _T3(t1, transforms)))
     areas = [
@@ -382,6 +415,9 @@ def run(rep, tier, seed):
         jobs.append(('area', [[t, a] for t in tx_ext if t[1] == hd for a in areas]))
     shapes = [(h, w) for h in range(1, 5) for w in range(1, 5)]
     jobs.append(('grid', [[s, a, b] for s in shapes for a in HEADINGS for b in HEADINGS]))
+    # sizes around every power of two up to 2**9 on one axis (bulk operations of the rotation switch algorithms there)
+    tall = [(n + d, m) for n in (16, 32, 64, 128, 256, 512) for d in (-1, 0, 1) for m in (1, 2, 3)]
+    jobs.append(('grid', [[sh, a, b] for s in tall for sh in (s, s[::-1]) for a in HEADINGS for b in ('F', 'R')]))
     jobs.append(('nextpos', [[p, h, a] for p in positions for h in HEADINGS for a in R.ACTIONS]))
     results = pmap(_work, [[j] for j in jobs], fresh=True)
     total = {}
